@@ -112,7 +112,9 @@ def endpointMatches (hostname port allowedDomain : Str) : Bool :=
 
 /-- `util.IsEndpointAllowed(endpoint, allowedDomains)` with `endpoint.Host = host` -/
 def isEndpointAllowed (host : Str) (allowedDomains : List Str) : Bool :=
-  allowedDomains.any (endpointMatches (hostnameOf host) (portOf host))
+  -- since the fix "never treat a redirect URL without a host as being on an allowed domain":
+  -- an empty hostname is never allowed
+  hostnameOf host ≠ [] && allowedDomains.any (endpointMatches (hostnameOf host) (portOf host))
 
 /-! ## authOnlyAuthorize -/
 
